@@ -60,7 +60,7 @@ func GemvT(m, n uintptr, alpha float32, a []float32, lda uintptr, x []float32, i
 	switch {
 	case beta == 0: // beta == 0 is special-cased to memclear
 		if incY == 1 {
-			for i := range y {
+			for i := range y[:n] {
 				y[i] = 0
 			}
 		} else {
